@@ -253,6 +253,14 @@ func (c *Conn) serve() {
 }
 
 func (c *Conn) pushFramesLoop() {
+	// failf panics; this goroutine runs outside the recover of serve()
+	defer func() {
+		if e := recover(); e != nil {
+			log.Debugf("Client disconnect: %v", e)
+			c.c.Close()
+		}
+	}()
+
 	for {
 		select {
 		case ur, ok := <-c.fbupc:
